@@ -102,9 +102,43 @@ func (p *P) _onBounds(r any, b, e Token) {}
         f = dict(spec_files("s1"))
         f["g.lox"] = f["g.lox"].replace("NUM = [0-9]+", "NUM = [0-9+", 1)
         return f
+    # siblings of s1: the next edit of the same project.  Same package, same file names; each changes as little as possible,
+    # so that a generator that decides "nothing changed here" from an incomplete summary of its inputs is exposed
+    if name == "s4":      # the same token names declared in another order (numbering changes, the set of names does not)
+        f = dict(spec_files("s1"))
+        t = f["g.lox"]
+        t = t.replace("NUM = [0-9]+\nADD = '+'\nMUL = '*'\nSEMI = ';'\n", "SEMI = ';'\nMUL = '*'\nNUM = [0-9]+\nADD = '+'\n", 1)
+        t = t.replace("  CP = ')' @pop_mode\n  INUM = [0-9]+\n", "  INUM = [0-9]+\n  CP = ')' @pop_mode\n", 1)
+        assert t != f["g.lox"]
+        f["g.lox"] = t
+        return f
+    if name == "s5":      # only a lexical expression changes (names, order, grammar, Go sources identical)
+        f = dict(spec_files("s1"))
+        t = f["g.lox"].replace("NUM = [0-9]+\n", "NUM = [0-9]+ ('.' [0-9]+)?\n", 1)
+        assert t != f["g.lox"]
+        f["g.lox"] = t
+        return f
+    if name == "s6":      # only the precedence levels of two productions change (lexer, names, Go sources identical)
+        f = dict(spec_files("s1"))
+        t = f["g.lox"].replace("expr '+' expr @left(1)", "expr '+' expr @left(2)", 1).replace("expr '*' expr @left(2)", "expr '*' expr @left(1)", 1)
+        assert t != f["g.lox"]
+        f["g.lox"] = t
+        return f
+    if name == "s7":      # only the Go sources change: another result type for one rule (other import set)
+        f = dict(spec_files("s1"))
+        t = f["parser.go"].replace("func (p *calcParser) on_timed(b *bytes.Buffer) time.Duration { return time.Duration(b.Len()) }",
+                                   "func (p *calcParser) on_timed(b *strings.Reader) time.Duration { return time.Duration(b.Len()) }", 1)
+        t = t.replace("func (p *calcParser) on_boxed(v int) *bytes.Buffer { return bytes.NewBufferString(\"x\") }",
+                      "func (p *calcParser) on_boxed(v int) *strings.Reader { return strings.NewReader(\"x\") }", 1)
+        t = t.replace('\t"bytes"\n', "", 1)
+        assert t != f["parser.go"]
+        f["parser.go"] = t
+        return f
     raise KeyError(name)
 
 
+VALID = ["s1", "s2", "s4", "s5", "s6", "s7"]
+VALID_TLA = "{" + ", ".join('"%s"' % v for v in VALID) + "}"
 GENFILES = {"base": "base.gen.go", "lexer": "lexer.gen.go", "parser": "parser.gen.go"}
 JUNK = b"@@@ this is not Go \x00\xff\n"
 PKGX = b"package otherpkg\n\nvar Leftover = 1\n"
@@ -150,7 +184,7 @@ def read_gen(proj):
 def reference_outputs(sc, lox):
     """Out(s) and Report(s): a fresh-directory generation"""
     ref = {}
-    for s in ("s1", "s2"):
+    for s in VALID:
         mod, proj = new_project(os.path.join(sc, "ref-" + s), "m")
         set_source(proj, s)
         rc, out, err = run_gen(lox, mod, proj, "inside", True, sc)
@@ -174,11 +208,9 @@ def observe(proj, ref, k):
     c = read_gen(proj)[k]
     cl = classify(c, ref)
     if cl:
-        return cl
-    for s, r in ref.items():
-        if c == r["files"][k]:
-            return s
-    return "other"
+        return [cl]
+    # sibling specifications may share a file byte for byte: the observation is the set of specifications it equals
+    return [s for s, r in ref.items() if c == r["files"][k]] or ["other"]
 
 
 def replay_history(sc, lox, ref, hist, n):
@@ -189,18 +221,15 @@ def replay_history(sc, lox, ref, hist, n):
     set_source(proj, hist["init"])
     steps = []
     for st in hist["steps"]:
-        exit_, rep = 0, "none"
+        exit_, rep = 0, ["none"]
         if st["op"] == "gen":
             rc, out, err = run_gen(lox, mod, proj, st["cwd"], st["rep"], elsewhere)
             exit_ = rc
             st["stderr"] = err[-600:]
             if st["rep"] and rc == 0:
-                rep = "other"
-                for s, r in ref.items():
-                    if out == r["report"]:
-                        rep = s
+                rep = [s for s, r in ref.items() if out == r["report"]] or ["other"]
             elif out.strip() and not st["rep"]:
-                rep = "unexpected-output"
+                rep = ["unexpected-output"]
         elif st["op"] == "set":
             set_source(proj, st["s"])
         elif st["op"] == "del":
@@ -216,17 +245,20 @@ def replay_history(sc, lox, ref, hist, n):
     return hist
 
 
-def op_alphabet():
+def op_alphabet(valid=("s1", "s2")):
     ops = []
     for f in ("base", "lexer", "parser"):
         ops.append({"op": "del", "f": f})
         for k in ("junk", "pkgx"):
             ops.append({"op": "corrupt", "f": f, "k": k})
-        for s in ("s1", "s2"):
+        for s in valid:
             ops.append({"op": "stale", "f": f, "s": s})
-    for s in ("s1", "s2", "s3"):
+    for s in list(valid) + ["s3"]:
         ops.append({"op": "set", "s": s})
     return ops
+
+
+SIBLINGS = ["s1", "s4", "s5", "s6", "s7"]
 
 
 def norm_step(st):
@@ -255,6 +287,24 @@ def histories(quick, rng):
     for a, b in pairs:
         g = gens[k % len(gens)]; k += 1
         H.append({"init": ("s1", "s2", "s3")[k % 3], "steps": [dict(gens[k % 2]), dict(a), dict(b), dict(g)]})
+    # the next edit of the same project (sibling specifications): regenerate over the previous output; one stale file of a sibling
+    sib = []
+    for a in SIBLINGS:
+        for b in SIBLINGS:
+            if a != b:
+                g = gens[k % len(gens)]; k += 1
+                sib.append({"init": a, "steps": [dict(gens[0]), {"op": "set", "s": b}, dict(g)]})
+    st = []
+    for a in SIBLINGS:
+        for b in SIBLINGS:
+            if a != b:
+                for f in ("base", "lexer", "parser"):
+                    g = gens[k % len(gens)]; k += 1
+                    st.append({"init": a, "steps": [{"op": "stale", "f": f, "s": b}, dict(g)]})
+    if quick:
+        rng.shuffle(st)
+        st = st[:20]
+    H += sib + st
     # keep only histories whose steps are enabled in the model is decided by TLC; drop obviously disabled ones here
     return H
 
@@ -269,8 +319,8 @@ def c13(tier):
     # ---- the model's own properties, exhaustively
     sd = spec_dir(sc, "spec-gd")
     open(os.path.join(sd, "GenDirMC.cfg"), "w").write(
-        'SPECIFICATION Spec\nCONSTANTS\n  Valid = {"s1", "s2"}\n  Invalid = {"s3"}\n  MaxSteps = %d\n'
-        'INVARIANT AfterGen\nPROPERTY FixedPoint\nCHECK_DEADLOCK FALSE\n' % (3 if quick else 4))
+        'SPECIFICATION Spec\nCONSTANTS\n  Valid = %s\n  Invalid = {"s3"}\n  MaxSteps = %d\n'
+        'INVARIANT AfterGen\nPROPERTY FixedPoint\nCHECK_DEADLOCK FALSE\n' % (VALID_TLA, 3 if quick else 4))
     rm = tlc(sc, "GenDir", cfg="GenDirMC.cfg", cwd=sd, timeout=1800)
     tlc_must(rm, "GenDir")
     if rm.violation:
@@ -301,7 +351,7 @@ def c13(tier):
                     continue
                 gen[st["f"]] = st["s"]
             elif st["op"] == "gen":
-                if src in ("s1", "s2"):
+                if src in VALID:
                     gen = {k: src for k in gen}
             out.append(st)
         h["steps"] = out
@@ -320,7 +370,7 @@ def c13(tier):
     hist = [{"init": h["init"], "steps": [norm_step(s) for s in h["steps"]]} for h in done]
     json.dump(hist, open(os.path.join(sd, "gendir_hist.json"), "w"))
     open(os.path.join(sd, "GenDirTrace.cfg"), "w").write(
-        'SPECIFICATION TSpec\nCONSTANTS\n  Valid = {"s1", "s2"}\n  Invalid = {"s3"}\n  MaxSteps = 10\nCHECK_DEADLOCK FALSE\n')
+        'SPECIFICATION TSpec\nCONSTANTS\n  Valid = %s\n  Invalid = {"s3"}\n  MaxSteps = 10\nCHECK_DEADLOCK FALSE\n' % VALID_TLA)
     rt = tlc(sc, "GenDirTrace", cfg="GenDirTrace.cfg", cwd=sd, timeout=1800)
     tlc_must(rt, "GenDirTrace")
     if rt.violation:
@@ -345,7 +395,7 @@ def c13(tier):
         rep.failure(sig, desc, {"history": h, "stderr": st.get("stderr")})
     # ---- repeated generation in separate processes (map iteration order is re-sampled, not enumerated)
     N = 8 if quick else 60
-    rich = [("s1", spec_files("s1")), ("s2", spec_files("s2"))]
+    rich = [(v, spec_files(v)) for v in (("s1", "s2") if quick else VALID)]
     nrep = 0
     for name, files in rich:
         def once(i):
@@ -452,8 +502,8 @@ def c14(tier):
         m = {"same": "s1", "changed": "other", "absent": "absent"}
         # Out(src) := the checked-in bytes; the observation "same" is the class s1
         H.append({"init": "s1", "steps": [{"op": "gen", "cwd": "inside", "rep": False, "s": "s1", "f": "base", "k": "junk",
-                                            "obs": {"base": m[h["obs"]["base"]], "lexer": m[h["obs"]["lexer"]], "parser": m[h["obs"]["parser"]],
-                                                    "exit": h["exit"], "report": "none"}}]})
+                                            "obs": {"base": [m[h["obs"]["base"]]], "lexer": [m[h["obs"]["lexer"]]], "parser": [m[h["obs"]["parser"]]],
+                                                    "exit": h["exit"], "report": ["none"]}}]})
     json.dump(H, open(os.path.join(sd, "gendir_hist.json"), "w"))
     open(os.path.join(sd, "GenDirTrace.cfg"), "w").write(
         'SPECIFICATION TSpec\nCONSTANTS\n  Valid = {"s1", "s2"}\n  Invalid = {"s3"}\n  MaxSteps = 10\nCHECK_DEADLOCK FALSE\n')
